@@ -443,11 +443,86 @@ def initScopes : List Sym → Scopes → M Scopes
   | [], sc => pure sc
   | x :: r, sc => do let (_, sc1) ← fresh sc x; initScopes r sc1
 
-/-- the lines of the function body that `comp_stmts(proc.body)` produces -/
-def printP (pr : Prec) (p : Proc) (bounds : List (Sym × Bound)) : M (List String × Bool) := do
+/-! ## the `free` discipline (static, decidable) on the emitted C
+
+  What a placement of `Free` nodes has to satisfy so that the status monitors of `CSem` cannot trip
+  (proved: Lemmas/CSimFree*.lean, Props/C02Stmt.lean).  Per C block:
+    * a name is declared at most once while visible (`vis`),
+    * `free(x)` only of a pointer `malloc`ed in the SAME block (`mine`), at most once (`dead`),
+    * no statement dereferences a pointer / window whose alias root (`w = src[..]` chains, `al`,
+      resolved with `Exo.CIndex.aliasRoot`) has been freed,
+    * at the closing brace every `malloc` of the block has been freed.
+  `MemoryAnalysis` establishes all of this except the alias part of the third item (finding F7). -/
+
+def lvSym : LVal → Sym
+  | .idx x _ _ => x
+  | .scalar x _ => x
+
+/-- the pointer / struct variables an expression dereferences -/
+def cdSyms : CD → List Sym
+  | .rd lv => [lvSym lv]
+  | .lit _ _ => []
+  | .bin _ a b => cdSyms a ++ cdSyms b
+  | .neg a => cdSyms a
+  | .cfg _ _ => []
+
+structure FS where
+  al : List (Sym × Sym)    -- (window, source), newest first
+  dead : List Sym          -- freed
+  mine : List Sym          -- `malloc`ed in the current block
+  vis : List Sym           -- visible pointer / struct names
+deriving Repr, Inhabited
+
+def FS.okUse (fs : FS) (y : Sym) : Bool := !fs.dead.contains (aliasRoot fs.al y)
+
+/-- closing brace: everything the block `malloc`ed has been freed -/
+def blockOK : Option FS → Bool
+  | some fs1 => fs1.mine.all (fun x => fs1.dead.contains x)
+  | none => false
+
+mutual
+def fsS (fs : FS) : CStmt → Option FS
+  | .nop => some fs
+  | .store lv e => if (lvSym lv :: cdSyms e).all fs.okUse then some fs else none
+  | .accum lv e => if (lvSym lv :: cdSyms e).all fs.okUse then some fs else none
+  | .cfgWriteI _ _ _ => some fs
+  | .cfgWriteD _ _ e => if (cdSyms e).all fs.okUse then some fs else none
+  | .ite _ t e =>
+      if blockOK (fsL { fs with mine := [] } t) && blockOK (fsL { fs with mine := [] } e)
+      then some fs else none
+  | .for_ _ _ _ b _ => if blockOK (fsL { fs with mine := [] } b) then some fs else none
+  | .malloc x _ =>
+      if fs.vis.contains x then none else some { fs with mine := x :: fs.mine, vis := x :: fs.vis }
+  | .declScalar x => if fs.vis.contains x then none else some { fs with vis := x :: fs.vis }
+  | .free x =>
+      if fs.mine.contains x && !fs.dead.contains x then some { fs with dead := x :: fs.dead } else none
+  | .winInit w src _ _ _ _ =>
+      if fs.vis.contains w then none else some { fs with al := (w, src) :: fs.al, vis := w :: fs.vis }
+def fsL (fs : FS) : List CStmt → Option FS
+  | [] => some fs
+  | s :: r => match fsS fs s with
+      | some fs1 => fsL fs1 r
+      | none => none
+end
+
+/-- a block: its own `mine`; everything it `malloc`ed is freed at the brace -/
+def fsBlock (fs : FS) (ss : List CStmt) : Bool := blockOK (fsL { fs with mine := [] } ss)
+
+/-- the discipline for a function body whose pointer / struct arguments are `vis0` -/
+def freeOK (vis0 : List Sym) (cs : List CStmt) : Bool := fsBlock ⟨[], [], [], vis0⟩ cs
+
+/-- … for a LoopIR statement list (after MemoryAnalysis), through the compiler -/
+def FreeOK (Γ : CEnv) (vis0 : List Sym) (ss : List Stmt) : Bool :=
+  match compL Γ ss with
+  | .ok (cs, _) => freeOK vis0 cs
+  | .error _ => false
+
+/-- the lines of the function body that `comp_stmts(proc.body)` produces, the ghost F6 flag, and
+    whether the body satisfies the `free` discipline -/
+def printP (pr : Prec) (p : Proc) (bounds : List (Sym × Bound)) : M (List String × Bool × Bool) := do
   let (cs, Γ) ← compP p bounds
   let sc ← initScopes (⟨"ctxt", 0⟩ :: p.args.map (·.name)) [⟨[], []⟩]
   let (ls, _) ← printL pr sc cs
-  pure (ls, Γ.modOK)
+  pure (ls, Γ.modOK, freeOK (p.args.map (·.name)) cs)
 
 end Exo.CompileS
